@@ -22,7 +22,10 @@ SPEC = dict(
     sc=dict(family="cmds", n=(120, 2500), mc=dict(max_calls=11, max_polls=2, after_end=1), mc_thorough=dict(max_calls=13),
             invariants=INV, bugs=[("pendingPollReruns", ["PendingNextIsNoOp", "FlowRefinesSem"], [])]),
     cs=[dict(family="cmds", n=(60, 1000), paths=(4, 6), calls=40,
-             label="YarnTrace: random completion schedules (raw handlers, channel filled by the harness)")],
+             label="YarnTrace: random completion schedules (raw handlers, channel filled by the harness)"),
+        # the same command statements dispatched again and again (the start node runs three times) while what they read changes
+        dict(family="dispatch", n=(30, 400), paths=(3, 5), calls=40,
+             label="YarnTrace: command statements dispatched repeatedly (pending, at the head of option bodies)")],
     nontrivial=lambda c: sum(1 for b in c["bodies"] for s in b if s["k"] == "cmd" and s["elems"][0].get("s") in ("cpend", "cfail")) >= 1,
     rule="scripts with up to several commands (top level, in option bodies, before/after lines and jumps; complete on return, failing on "
          "return, or pending): TLC enumerates every completion schedule (0..2 polls answered waiting, then nil or an error) and every "
